@@ -120,6 +120,11 @@ def _wraps(it, a, k):
 
 
 def _chain(it, a, k):
+    if any(hasattr(x, "deps") for x in a):
+        # collections computed from the abstract graph (region dependencies only): so is their chain
+        from .nx_graph import AbsColl
+
+        return AbsColl(frozenset().union(*[x.deps for x in a if hasattr(x, "deps")]), "chain")
     out = []
     for x in a:
         out.extend(it.iterate(x))
